@@ -4,12 +4,13 @@
 Require Extraction.
 Require Import ExtrOcamlBasic.
 From Coq Require Import String List.
-From ClasticV Require Import Base.Sx Model.Stats.
+From ClasticV Require Import Base.Sx Model.Stats Model.ChainIO.
 Local Open Scope string_scope.
 
 Definition dispatch (tag : string) (s : sexp) : sexp :=
   if String.eqb tag "reservoir" then run_reservoir s
   else if String.eqb tag "stats" then run_stats s
+  else if String.eqb tag "chainlab" then run_chainlab s
   else A "UNKNOWN-TAG".
 
 Extraction Blacklist String List Nat Bool.
